@@ -45,7 +45,7 @@ UPDS = {
     "set+unset_field": {"fields": {"f": 1}, "unset_fields": ["f"]},
     "all_at_once": {"time": ("callable", 1000000), "measurement": "n", "tags": {"k": "b"}, "fields": {"f": SYM}},
 }
-QS = [B, ("tag", "k", OP, SYM), C, A, ("not", C), ("and", A, B), ("field_exists", "f"), ("or", ("not", D), M)]
+QS = [B, ("tag", "k", OP, SYM), C, A, ("not", C), ("and", A, B), ("field_exists", "f"), ("or", ("not", D), M), ("and", B, ("not", C)), ("and", ("not", C), B), ("and", B, ("field_map", "f", "f_neg", "<", SYM))]
 
 
 def _ob(oid, budget=60, presets=None, **p):
@@ -60,7 +60,7 @@ def obligations(tier):
     th = tier == "thorough"
     obs = []
     for uname, u in UPDS.items():
-        for q in QS if th else [B, C, A, ("not", C)]:
+        for q in QS if th else [B, C, A, ("not", C), ("and", B, ("not", C)), ("and", ("not", C), B)]:
             for cname, ai, rx in CONFIGS if th else CONFIGS[:2]:
                 core = q == B and cname == "ai" and uname != "all_at_once"
                 obs.append(
